@@ -61,6 +61,20 @@ def _alarm(signum, frame):
     raise WallClock()
 
 
+class CpuClock(BaseException):
+    pass
+
+
+def _cpu_alarm(signum, frame):
+    raise CpuClock()
+
+
+# CPU seconds (ITIMER_VIRTUAL: this process's own user time, independent of machine load) that parsing one raw HTTP
+# message of a few KB may consume; the real parser needs well under a millisecond.  Loops inside the regular-expression
+# engine execute no Python back-edge, so the sys.monitoring budget cannot see them.
+HTTP_CPU_SECONDS = 20
+
+
 def load_sample(name):
     path = os.path.join(core.REPO, "tests", "beacons", SAMPLES[name])
     if not os.path.exists(path):
@@ -82,6 +96,10 @@ def call_entry(ep, data, mode, ctx):
     tmp = None
     old = signal.signal(signal.SIGALRM, _alarm)
     signal.alarm(120)
+    old_cpu = None
+    if ep == "parse_raw_http":
+        old_cpu = signal.signal(signal.SIGVTALRM, _cpu_alarm)
+        signal.setitimer(signal.ITIMER_VIRTUAL, HTTP_CPU_SECONDS)
     try:
         with steps.budget(len(data)) as b:
             if ep == "from_bytes":
@@ -157,6 +175,8 @@ def call_entry(ep, data, mode, ctx):
         return "exception.class", f"{ep} raised ValueError but documents a 'not found' value, not an exception"
     except steps.Overrun as e:
         return "bounded.progress", f"{ep}: unbounded looping: {e}"
+    except CpuClock:
+        return "bounded.progress", f"{ep}: more than {HTTP_CPU_SECONDS} s of CPU time on a message of {len(data)} bytes (no Python loop involved: regular-expression backtracking)"
     except WallClock:
         ctx.inconclusive.append(f"{ep} exceeded 120 s wall clock on an input of {len(data)} bytes (not a verdict)")
         return None
@@ -165,6 +185,9 @@ def call_entry(ep, data, mode, ctx):
     except Exception as e:  # noqa: BLE001
         return "exception.class", f"{ep} raised {type(e).__name__}: {str(e)[:200]}"
     finally:
+        if old_cpu is not None:
+            signal.setitimer(signal.ITIMER_VIRTUAL, 0)
+            signal.signal(signal.SIGVTALRM, old_cpu)
         signal.alarm(0)
         signal.signal(signal.SIGALRM, old)
         if tmp:
@@ -506,6 +529,16 @@ def run_shard(shard, ctx):
                     data = P.filler(rng, off) + pair + tail
                     for ep in ("from_bytes", "from_path"):
                         check_case({"data": data, "seed_kind": "crafted-guard-marker", "fault": f"marker@{off}", "calls": [(ep, "default")]}, ctx)
+        # a whole, uniform or short-periodic 6144-byte area in front of the marker (one distinct n-gram per key length)
+        for pat in (b"\0", b"\x2e", b"\xcc", b"\xcc\x90", b"abc", bytes(range(256)), b"\x8a"):
+            for lead in (0, 1, 5):
+                area = (pat * (6144 // len(pat) + 1))[:6144]
+                for m in marks[:2]:
+                    a = area[-6:]
+                    pair = a + bytes(x ^ y for x, y in zip(a[::-1], m))
+                    data = P.filler(rng, lead) + area[:-6] + pair + rng.choice([b"", bytes(2048), P.filler(rng, 2100)])
+                    for ep in ("from_bytes", "from_path"):
+                        check_case({"data": data, "seed_kind": "crafted-guard-marker", "fault": f"uniform-area={pat[:4]!r},lead={lead}", "calls": [(ep, "default")]}, ctx)
         for size in (0, 1, 2**31 - 1, 2**31, 2**32 - 1):
             for off in (0, 1, 7):
                 data = bytes(off) + struct.pack("<II", off + 16, size) + b"KEY!" + b"hintHINT" + b"payload"
@@ -539,6 +572,19 @@ def run_shard(shard, ctx):
             for cut in (70, 200, info["lfanew"] + 10, info["lfanew"] + 30, 900, 1500):
                 for ep in ("find_mz_offset", "find_architecture", "find_compile_stamps", "find_magic_mz", "find_magic_pe", "find_stage_prepend_append"):
                     check_case({"data": img[:cut], "seed_kind": "crafted-mmap", "fault": f"mmap,truncate@{cut}", "calls": [(ep + ":mmap", "default")]}, ctx)
+        # header fields that point beyond a memory mapping (a mapping refuses the seek, BytesIO does not)
+        for arch in ("x86", "x64"):
+            blk = P.rx1((tlv.short(1, 8) + tlv.short(2, 443)).ljust(30, b"\0"), 0x2E)
+            img, info = P.build_pe(rng, arch=arch, nsec=2, export_section=0, data=blk)
+            fields, _ = pe_fields(info, 0, arch, 2)
+            for name, off, width in fields:
+                if width != 4 or name in ("pe.signature", "TimeDateStamp"):
+                    continue
+                for val in (0x10000000, 0x7FFFFFFF, 0xFFFFFFFF, len(img), len(img) - 1):
+                    d = bytearray(img)
+                    struct.pack_into("<I", d, off, val)
+                    for ep in ("find_compile_stamps:mmap", "find_stage_prepend_append:mmap", "find_magic_pe:mmap", "from_file:mmap"):
+                        check_case({"data": bytes(d), "seed_kind": "crafted-mmap", "fault": f"mmap,{name}={val:#x}", "calls": [(ep, "default")]}, ctx)
         # claimed sizes that only a regular file takes at face value
         for arch in ("x86", "x64"):
             img, info = P.build_pe(rng, arch=arch, nsec=2)
@@ -584,6 +630,13 @@ def run_shard(shard, ctx):
                     hdrs.insert(pos, line)
                     data = start + b"\r\n" + b"\r\n".join(hdrs) + b"\r\n\r\nbody"
                     check_case({"data": data, "seed_kind": "http", "fault": f"header-line={line!r}@{pos}", "calls": [("parse_raw_http", "default")]}, ctx)
+        # request targets that are long runs of one character class (absolute-form / authority-form look-alikes without "://")
+        runs = [b"a" * 40, b"A" * 200, b"abc123" * 12, b"a+b.c-" * 12, b"a1" * 40, b"host-name.example" * 5 + b":443", b"h" * 64 + b":/",
+                b"/" * 80, b":" * 80, b"%41" * 40, b"?" * 60, b"a" * 39 + b"://", b"x" * 33 + b":" + b"/" * 40]
+        for target in runs:
+            for line in (b"GET " + target + b" HTTP/1.1", b"CONNECT " + target + b" HTTP/1.1", b"HTTP/1.1 " + target + b" OK", b"HTTP/1.1 200 " + target):
+                data = line + b"\r\nA: 1\r\n\r\n"
+                check_case({"data": data, "seed_kind": "http", "fault": f"long-run-target={target[:12]!r}x{len(target)}", "calls": [("parse_raw_http", "default")]}, ctx)
         for _ in range(shard["n"]):
             if ctx.out_of_time():
                 break
